@@ -307,6 +307,27 @@ Proof.
   destruct (expected_from 0 l); reflexivity.
 Qed.
 
+(** re-evaluation: from any world the same chain value gives the same verdict and appends the same events again *)
+Lemma run_from_any l w :
+  Gen.Checker.CheckFailed (SM TW) (@sret TW) (@sbind TW) (build TW tlog (instr_from 0 l)) w
+  = (fst (expected_from 0 l), rev (snd (expected_from 0 l)) ++ w).
+Proof. rewrite C20_sem_lemma. apply instr_run. Qed.
+
+Fixpoint repeat_run (n : nat) (l : list ispec) (w : TW) : list bool * TW :=
+  match n with
+  | 0 => ([], w)
+  | S k => let '(f, w1) := Gen.Checker.CheckFailed (SM TW) (@sret TW) (@sbind TW) (build TW tlog (instr_from 0 l)) w in
+           let '(fs, w2) := repeat_run k l w1 in (f :: fs, w2)
+  end.
+Fixpoint napp {A} (n : nat) (t : list A) : list A := match n with 0 => [] | S k => t ++ napp k t end.
+
+Lemma repeat_run_spec n l : forall w,
+  repeat_run n l w = (repeat (fst (expected_from 0 l)) n, rev (napp n (snd (expected_from 0 l))) ++ w).
+Proof.
+  induction n as [|n IH]; intro w; cbn [repeat_run repeat napp]; [reflexivity|].
+  rewrite run_from_any, IH. f_equal. rewrite rev_app_distr, <- app_assoc. reflexivity.
+Qed.
+
 (** consequences on the documented trace *)
 Definition count_cb (t : list event) : nat := length (filter (fun e => evk_eqb (snd e) ECallback) t).
 Definition max_index (t : list event) : nat := fold_right (fun e m => Nat.max (fst e) m) 0 t.
